@@ -589,6 +589,9 @@ class Engine:
             if dst_ty not in INT_RANGES:
                 raise Unsupported("Neg on " + dst_ty)
             return self.wrap(-v, dst_ty)
+        sm = re.match(r"^(?:std::option::)?Option::<.*>::Some\((copy _\d+|move _\d+|const [^()]*)\)$", s)
+        if sm:
+            return ("Some", self.operand(frame, sm.group(1)))
         em = re.match(r"^([A-Za-z_][\w:<>, &'\[\];()]*?)::([A-Z]\w*)\((.*)\)$", s)
         if em and not s.startswith(("Lt(", "Le(", "Gt(", "Ge(", "Eq(", "Ne(")):
             path = re.sub(r"::<.*>$", "", em.group(1))
